@@ -428,6 +428,13 @@ fn gen_literal(r: &mut Rng) -> (T, bool) {
     }
     let dt = if r.chance(2, 3) { r.ps(&["integer", "decimal", "double", "boolean"]) } else { r.ps(NUM_DT) };
     let mut lex = r.ps(LEX).to_string();
+    if r.chance(1, 8) { // near misses of the datatypes the writers treat specially (letter case, one character more or less, another namespace)
+        let near = r.ps(&["http://www.w3.org/2001/XMLSchema#String", "http://www.w3.org/2001/XMLSchema#STRING", "http://www.w3.org/2001/xmlschema#string", "HTTP://www.w3.org/2001/XMLSchema#string", "http://www.w3.org/2001/XMLSchema#strin", "http://www.w3.org/2001/XMLSchema#strings",
+            "http://www.w3.org/2001/XMLSchema#Integer", "http://www.w3.org/2001/XMLSchema#INTEGER", "http://www.w3.org/2001/XMLSchema#integers", "http://www.w3.org/2001/XMLSchema#Boolean", "http://www.w3.org/2001/XMLSchema#Decimal", "http://www.w3.org/2001/XMLSchema#Double", "http://www.w3.org/2001/XMLSchema#doubl",
+            "http://www.w3.org/2001/XMLSchema-datatypes#integer", "http://www.w3.org/2001/XMLSchema/integer", "http://www.w3.org/2001/XMLSchemainteger", "http://example.org/ns/integer", "http://www.w3.org/1999/02/22-rdf-syntax-ns#PlainLiteral"]);
+        if r.chance(1, 3) { lex = r.ps(&["v", "a b", "12", "true", "1.5", "1e0"]).to_string(); }
+        return (T::Lit(lex, near.to_string()), true);
+    }
     if r.chance(1, 6) { // random mutation of a numeric form
         let alphabet: Vec<char> = "0123456789+-.eExX \n,_".chars().collect();
         let n = r.range(1, 6);
